@@ -35,3 +35,11 @@ Proof.
   cbn in *. destruct (Z.eqb (wn_id x) (wn_id y)) eqn:He; [|discriminate H].
   apply Z.eqb_eq in He. rewrite He. reflexivity.
 Qed.
+
+(* the stable interface of C18 (C18/Api.v): the same boolean *)
+From Verif Require C18.Api.
+Lemma way_area_api w : way_area w = C18.Api.way_is_area (map wn_id (w_nodes w)) (w_tags w).
+Proof.
+  pose proof (way_area_polygon w) as H.
+  rewrite C18.Api.way_is_area_is_the_model in H. injection H as H. symmetry. exact H.
+Qed.
